@@ -127,5 +127,6 @@ func init() {
 	addRule("C15", rule{name: "E-use", run: func(c *Ctx) { ruleEUse(c, addrEntries, 3) }})
 	addRule("C16", rule{name: "E-use", run: func(c *Ctx) { ruleEUse(c, append(append([]entrySpec{}, marshalEntries...), decodeEntries...), 30) }})
 	addRule("C17", rule{name: "E-use", run: func(c *Ctx) { ruleEUse(c, bip276Entries, 3) }})
+	addRule("C19", rule{name: "S-copy", run: ruleSCopyState})
 	addRule("C20", rule{name: "E-use", run: func(c *Ctx) { ruleEUse(c, ordEntries, 10) }})
 }
